@@ -30,6 +30,77 @@ pub fn domain() -> Vec<MLangId> {
     out
 }
 
+/// Per-field sweeps: `matches` is a conjunction of four field-wise tests, so each field is also
+/// swept over a large domain of its own (all values the bundled CLDR data know, the
+/// standard's special-purpose codes, unknown representatives / all sorted sub-lists of a
+/// 7-variant alphabet) while the other three fields take two fixed contexts.  A defect keyed on a
+/// particular code (`Zzzz`, `ZZ`, `und`-like languages) or on the inner elements of a longer
+/// variant list lives here and not in the small product domain.
+pub fn field_families(repo: &str, quick: bool) -> Vec<(&'static str, Vec<MLangId>)> {
+    let lk = super::universe::load_likely(repo);
+    let mk = |l: Option<&str>, s: Option<&str>, r: Option<&str>, v: &[&str]| MLangId {
+        lang: l.map(|x| x.to_string()),
+        script: s.map(|x| x.to_string()),
+        region: r.map(|x| x.to_string()),
+        variants: v.iter().map(|x| x.to_string()).collect(),
+    };
+    fn opt(s: &String) -> Option<&str> {
+        if s.is_empty() { None } else { Some(s.as_str()) }
+    }
+    let mut out = vec![];
+    // languages
+    let mut langs: Vec<String> = lk.langs.iter().step_by(if quick { 5 } else { 1 }).cloned().collect();
+    for w in ["", "und", "mul", "mis", "zxx", "art", "qaa", "qtz", "root", "en", "eng", "sh", "iw", "he", "in", "id", "tl", "fil", "mo", "ro", "no", "nb", "undefine", "undet"] {
+        langs.push(if w == "und" { String::new() } else { w.to_string() });
+    }
+    langs.retain(|w| w.len() != 4);
+    langs.sort();
+    langs.dedup();
+    let mut fam = vec![];
+    for l in &langs {
+        fam.push(mk(opt(l), None, None, &[]));
+        fam.push(mk(opt(l), Some("Latn"), Some("US"), &["1996"]));
+    }
+    out.push(("language", fam));
+    // scripts
+    let mut scripts: Vec<String> = lk.scripts.clone();
+    for w in ["", "Zzzz", "Zyyy", "Zxxx", "Zinh", "Zmth", "Zsym", "Zsye", "Qaaa", "Qabx", "Latn", "Cyrl", "Arab", "Hans", "Hant", "Hani", "Root", "True"] {
+        scripts.push(w.to_string());
+    }
+    scripts.sort();
+    scripts.dedup();
+    let mut fam = vec![];
+    for sc in &scripts {
+        fam.push(mk(Some("sr"), opt(sc), None, &[]));
+        fam.push(mk(None, opt(sc), Some("RS"), &["ekavsk"]));
+    }
+    out.push(("script", fam));
+    // regions
+    let mut regions: Vec<String> = lk.regions.clone();
+    for w in ["", "ZZ", "AA", "QM", "QZ", "XA", "XK", "XZ", "QO", "EU", "UN", "EZ", "UK", "GB", "US", "001", "419", "150", "003", "999", "000"] {
+        regions.push(w.to_string());
+    }
+    regions.sort();
+    regions.dedup();
+    let mut fam = vec![];
+    for r in &regions {
+        fam.push(mk(Some("en"), None, opt(r), &[]));
+        fam.push(mk(None, Some("Latn"), opt(r), &["fonipa"]));
+    }
+    out.push(("region", fam));
+    // variant lists: every sorted sub-list of 7 variants (lists up to length 7, so that two
+    // lists can differ in an inner element only)
+    let alpha = ["1994", "1996", "biske", "fonipa", "njiva", "rozaj", "valencia"];
+    let mut fam = vec![];
+    for mask in 0u32..(1 << alpha.len()) {
+        let v: Vec<&str> = (0..alpha.len()).filter(|i| mask >> i & 1 == 1).map(|i| alpha[i]).collect();
+        fam.push(mk(Some("sl"), None, None, &v));
+        fam.push(mk(None, Some("Latn"), Some("IT"), &v));
+    }
+    out.push(("variants", fam));
+    out
+}
+
 pub const EXTS: [&str; 5] = ["", "-u-ca-buddhist", "-t-de-h0-hybrid", "-x-priv", "-t-de-u-ca-buddhist-x-priv"];
 const FLAGS: [(bool, bool); 4] = [(false, false), (true, false), (false, true), (true, true)];
 
@@ -144,6 +215,23 @@ pub fn run_c11(ctx: &Ctx) -> Report {
     rep.add_space("E4.pairs", json!({"identifiers": n, "ordered_pairs": n * n, "flag_pairs": 4,
         "domain": "{und,en,fr,zh} x {none,Latn,Cyrl,Hant} x {none,US,001,FR} x 6 variant lists"}), &st);
     rep.transitions += n * n * 3;
+    // per-field sweeps
+    let mut fam_desc = vec![];
+    for (name, fam) in field_families(&ctx.repo, ctx.quick()) {
+        let fids: Vec<LanguageIdentifier> = fam.iter().map(langid_from_model).collect();
+        let flocs: Vec<Locale> = fids.iter().map(|i| Locale::from(i.clone())).collect();
+        let m = fam.len() as u64;
+        let label: &'static str = Box::leak(format!("E4.field.{}", name).into_boxed_str());
+        let stf = par_range(ctx, label, m * m, 256, &|idx, l| {
+            let (i, j) = ((idx / m) as usize, (idx % m) as usize);
+            check_pair(&fam[i], &fam[j], &fids[i], &fids[j], l, &coll);
+            check_locale_pair(&fam[i], &fam[j], 0, 0, &flocs[i], &flocs[j], &fids[i], l, &coll);
+        });
+        rep.add_space(label, json!({"identifiers": m, "ordered_pairs": m * m, "flag_pairs": 4}), &stf);
+        rep.transitions += m * m * 3;
+        fam_desc.push(json!({"field": name, "identifiers": m}));
+    }
+    rep.extra.insert("field_sweeps".into(), json!(fam_desc));
     // locales
     let locs: Vec<Vec<Locale>> = dom
         .iter()
@@ -173,7 +261,7 @@ pub fn run_c11(ctx: &Ctx) -> Report {
     if st.local.counters[0] == 0 || st.local.counters[1] == 0 || st2.local.counters[2] == 0 || st2.local.counters[3] == 0 {
         rep.engine_failures.push("vacuity guard: matches was constant".into());
     }
-    rep.rule = "E4: every ordered pair of the 384-identifier product domain x the four flag pairs through LanguageIdentifier::matches and Language::matches (formula, equality, symmetry, reflexivity, monotonicity), then every pair x 5x5 extension settings through Locale::matches and LanguageIdentifier::matches(&Locale). states = pairs, transitions = matches calls. Non-trivial = distinct identifiers that match under both flags (a genuine wildcard match).".into();
+    rep.rule = "E4: per-field sweeps (each of language / script / region over all values of the bundled CLDR data plus the standard's special codes, variant lists over all 128 sorted sub-lists of 7 variants; the other fields in two fixed contexts; every ordered pair x four flag pairs), and every ordered pair of the 384-identifier product domain x the four flag pairs through LanguageIdentifier::matches and Language::matches (formula, equality, symmetry, reflexivity, monotonicity), then every pair x 5x5 extension settings through Locale::matches and LanguageIdentifier::matches(&Locale). states = pairs, transitions = matches calls. Non-trivial = distinct identifiers that match under both flags (a genuine wildcard match).".into();
     rep
 }
 
